@@ -106,12 +106,14 @@ def finish(col: Collector, tier: str, seed: int, t0: float, meta: dict) -> int:
     from .model import AnalysisError
 
     prop = col.prop
+    violations, known_hits, known_keys = classify(col)
     for name, actual, minimum in col.floors:
         if actual < minimum:
-            raise AnalysisError(
-                f"instance floor: {name} analysed {actual} < {minimum} confirmed by hand"
-            )
-    violations, known_hits, known_keys = classify(col)
+            msg = f"instance floor: {name} analysed {actual} < {minimum} confirmed by hand"
+            if not violations:
+                raise AnalysisError(msg)
+            # an anchor vanished *and* a rule fired: report the violation, mention the floor
+            print(f"FLOOR: {msg}")
     if col.undecided_msgs and not violations:
         raise AnalysisError("undecided construct(s): " + "; ".join(col.undecided_msgs[:3]))
     for m in col.undecided_msgs[:5]:
